@@ -3,7 +3,7 @@ _C20_MAIN = "server"
 
 PROPS["C20"] = prop(
     "exploration",
-    "rapid round-trip + single-field sensitivity sweep over reflection-generated message trees; strict reference decoder for ids",
+    "rapid round-trip + single-field sensitivity sweep over reflection-generated message trees; strict reference decoder for ids; rapid-generated histories on a running server (publishes, permission changes, reload and restart of the P2P topic) with the invariant that every frame shows a P2P topic under the other participant's id",
     "non-trivial = id strings that differ from a valid encoding in exactly one position (or only in the unused trailing bits), proper p2p pairs, "
     "grp/chn names, messages with >= 3 optional sub-structures present; distinct = distinct generated case by FNV-64 of its JSON",
     "Ids: all 64-bit values with boundary bias through every codec against an independent bit-level encoder/decoder; strings <= 30 bytes offered as ids and "
@@ -25,6 +25,7 @@ PROPS["C20"] = prop(
      Unit("TestC20Server", _C20_MAIN, quick=8000, thorough=100000, shards_quick=4, shards_thorough=16),
      Unit("TestC20PbClient", _C20_MAIN, quick=6000, thorough=150000, shards_quick=2, shards_thorough=8),
      Unit("TestC20PbServer", _C20_MAIN, quick=6000, thorough=150000, shards_quick=2, shards_thorough=8),
+     Unit("TestC20WP2PNames", _C20_MAIN, quick=800, thorough=30000, shards_quick=8, shards_thorough=16, timeout_quick=300),
      ],
     ["a Uid text whose last base64 character differs only in the unused trailing bits is an alternative spelling of the same id (DESIGN.md section 4)",
      "p2p strings whose halves are out of order, equal or zero are never produced by P2PName; how ParseP2P reads them is unspecified",
